@@ -364,6 +364,12 @@ def fmt_oracle(sb, res, cache, text):
     return out
 
 
+def real_key(uri):
+    """one name per file: a server that was not given a rootUri under a symlinked cwd answers with physical paths"""
+    p = lsp_client.uri_to_path(uri) if isinstance(uri, str) else None
+    return os.path.realpath(p) if p else uri
+
+
 def check_ranges(res, sb, kind, reply_obj, default_uri, text_of, tainted, ctx_fn):
     """(b): every reported range lies inside the document it names (LSP rule: start <= end, lines exist; character is clamped by the protocol)."""
     def visit(obj, uri):
@@ -386,7 +392,7 @@ def check_ranges(res, sb, kind, reply_obj, default_uri, text_of, tainted, ctx_fn
         except Exception:
             res.violate("C20.range-shape", kind, "malformed range %r\n%s" % (r, ctx_fn()))
             return
-        if uri in tainted:
+        if real_key(uri) in tainted:
             res.metric("ranges_skipped_file_edited_behind_server")
             return
         text = text_of(uri)
@@ -469,6 +475,10 @@ def execute(world, sb, res):
         bufs = buffers if snapshot is None else snapshot
         if uri in bufs:
             return bufs[uri]
+        rk = real_key(uri)
+        for u_, t_ in bufs.items():
+            if real_key(u_) == rk:
+                return t_
         if uri.startswith("file://"):
             p = lsp_client.uri_to_path(uri)
             try:
@@ -594,7 +604,7 @@ def execute(world, sb, res):
                 had_fault = True
                 full = root + "/" + msg["path"]
                 uri = lsp_client.path_to_uri(sb.p(full))
-                tainted.add(uri)
+                tainted.add(real_key(uri))
                 try:
                     if msg["op"] in ("write", "create"):
                         if os.path.isdir(sb.p(full)):
@@ -686,7 +696,7 @@ def execute(world, sb, res):
                 if uri not in buffers:
                     res.fault("proto_close_unopened")
                     had_fault = True
-                if uri in tainted:
+                if real_key(uri) in tainted:
                     res.probe("disk_fault_then_close")
                 srv.notify("textDocument/didClose", {"textDocument": {"uri": uri}})
                 buffers.pop(uri, None)
